@@ -390,6 +390,20 @@ def _drive_ctl(sim, plan, known, hit):
                     "frame of the damaged stream (declared: %r)"
                     % (bad_i, have[bad_i][0], have[bad_i][1] or 0,
                        [(t, hex(x)) for t, x in want][:12]))
+  # a delivered message is built from its own frame: what it re-serialises
+  # to cannot be longer than the frame declared
+  j = 0
+  for t, x, n in world.delivered[vcon.ID][vbase:]:
+    while j < len(decl) and (decl[j][0], decl[j][1]) != (t, x):
+      j += 1
+    if j >= len(decl):
+      break
+    if n > len(decl[j][2]):
+      raise Violation("ctl/delivered-larger-than-declared", "victim: the "
+                      "delivered message type=%d xid=%#x re-serialises to %d "
+                      "bytes, its frame declared %d: it holds bytes of its "
+                      "neighbour" % (t, x or 0, n, len(decl[j][2])))
+    j += 1
   closed = victim.eof_from_controller or vcon.disconnected
   sim.probes["victim_closed" if closed else "victim_survived"] += 1
   if len(have) < len(want):
